@@ -721,6 +721,50 @@ def fam_conc(tier: str, rng: random.Random, isasync: bool = False) -> Iterator[d
                             d2 = [Op("call", 2, 1, 1)]
                             d3 = [Op("call", 2, 1, a) for a in calls3]
                         yield Prog(fns, cons, [], cls, obj, [d1, d2, d3], tag="conc-{}-{}".format(variant, "async" if isasync else "thread"))
+    if isasync:
+        # task 1 is the synchronous main program: it runs contracted sync code and creates the tasks before the event
+        # loop starts (main_sync), or it is a task itself; the tasks then call an async function / async method
+        for main_sync in (True, False):
+            for copy2 in (0, 1):
+                for copy3 in (0, 1):
+                    for variant in ("func", "method", "method-mixed"):
+                        for calls3 in ([2], [2, 1]):
+                            if variant == "func":
+                                cons = [Con("pre", "default", False, [True, True, False]), Con("post"), Con("pre")]
+                                fns = [Fn("func", 0, True, ["chk"], [[1]], [], [2], script=aw),
+                                       Fn("func", 0, False, ["chk"], [[3]], [], [])]
+                                cls, obj = [], []
+                                d1 = [Op("call", 2, 0, 1), Op("spawn", 2, 0, copy2), Op("spawn", 3, 0, copy3)]
+                                d2 = [Op("call", 1, 0, 1)]
+                                d3 = [Op("call", 1, 0, a) for a in calls3]
+                            else:
+                                cons = [Con("inv", "default", False, [False, True, True]),
+                                        Con("pre", "default", False, [True, True, False])]
+                                fns = [Fn("init", 1, False, ["init"], out=[RetV(0)] * 3, setst=1),
+                                       Fn("method", 1, True, ["inv", "chk"], [[2]], script=aw),
+                                       Fn("method", 1, False, ["inv"], setst=1)]
+                                cls, obj = [Cls([1])], [{"cls": 1, "st0": 0}]
+                                d1 = [Op("call", 1, 1, 1), Op("spawn", 2, 0, copy2), Op("spawn", 3, 0, copy3)]
+                                d2 = [Op("call", 2, 1, 1)]
+                                d3 = [Op("call", 2, 1, a) for a in calls3]
+                                if variant == "method-mixed":
+                                    # a sync public method of the same object while the async one is suspended
+                                    d3 = [Op("call", 3, 1, 1)] + d3
+                            p = Prog(fns, cons, [], cls, obj, [d1, d2, d3], tag="conc-mainsync-" + variant)
+                            p["main_sync"] = main_sync
+                            yield p
+        # the parent is suspended inside an async public method of the object while a child (fresh / copied context)
+        # calls a sync public method and the async method of the same object
+        for copy2 in (0, 1):
+            for d2 in ([Op("call", 3, 1, 1)], [Op("call", 3, 1, 1), Op("call", 2, 1, 1)], [Op("call", 2, 1, 2), Op("call", 3, 1, 1)]):
+                cons = [Con("inv", "default", False, [False, True, True]),
+                        Con("pre", "default", False, [True, True, False])]
+                fns = [Fn("init", 1, False, ["init"], out=[RetV(0)] * 3, setst=1),
+                       Fn("method", 1, True, ["inv", "chk"], [[2]], script=aw),
+                       Fn("method", 1, False, ["inv"], setst=1)]
+                d1 = [Op("call", 1, 1, 1), Op("spawn", 2, 0, copy2), Op("call", 2, 1, 1)]
+                yield Prog(fns, cons, [], [Cls([1])], [{"cls": 1, "st0": 0}], [d1, [dict(o) for o in d2]],
+                           tag="conc-parent-suspended")
     # a task created while its parent is evaluating contracts (inside a suspension window)
     for copy2 in (0, 1):
         cons = [Con("pre", "default", False, [True, True, False], script=[Op("spawn", 2, 0, copy2)]), Con("post")]
